@@ -212,15 +212,13 @@ EXTRA = [
     ("C12", "revert-negative-target-fix", "pdpy11/compiler.py",
      'new_addr_value = get_as_int(state, "link address", state["insn"], insn.value, bitness=16, unsigned=True)',
      'new_addr_value = get_as_int(state, "link address", state["insn"], insn.value, bitness=16, unsigned=False)'),
-    ("C12", "revert-promise-variable-fix", "pdpy11/deferred.py",
-     "            if isinstance(variable, Promise) and isinstance(key, BaseDeferred) and not isinstance(key, LinearPolynomial):",
-     "            if False and isinstance(variable, Promise) and isinstance(key, BaseDeferred) and not isinstance(key, LinearPolynomial):"),
+    ("C12", "revert-promise-estimate-fix", "pdpy11/deferred.py",
+     "            if not isinstance(value, BaseDeferred):\n                return value\n        # Not known yet",
+     "            return self.value\n        # Not known yet"),
     ("C12", "self-dependent-base-assembled-as-zero", "pdpy11/compiler.py",
      '                reports.error(\n                    "recursive-definition",', '                reports.warning(\n                    "recursive-definition",'),
     ("C12", "skip-fill-not-zero", "pdpy11/compiler.py", '                                    return b"\\x00" * length', '                                    return b"\\x00" * (length - 1) + (b"\\xff" if length > 40 else b"\\x00") if length else b""'),
     ("C12", "link-expression-rounded-even", "pdpy11/compiler.py",
      '                return get_as_int(state, "link address", state["insn"], address, bitness=16, unsigned=False)\n            except DeferredCycle:',
      '                return get_as_int(state, "link address", state["insn"], address, bitness=16, unsigned=False) & ~1\n            except DeferredCycle:'),
-    ("C12", "polynomial-add-drops-duplicate-key", "pdpy11/deferred.py",
-     "                if key in self.coeffs:\n                    self.coeffs[key] += value", "                if key in self.coeffs:\n                    self.coeffs[key] = value if value > 1 else self.coeffs[key] + value"),
 ]
